@@ -203,6 +203,58 @@ def main_history(ck):
     return ev, info
 
 
+def main_nosalt_fault(ck):
+    """No salt on the command line and files that cannot be written in the middle of the run: whatever salt was
+    generated must be reported, and re-running with A reported salt reproduces every output file of the run."""
+    import re
+    import c_text
+    ev = [{"ev": "start"}]
+    info = [None]
+    base = tlc.subdir("c13nosalt")
+    ind = os.path.join(base, "in")
+    good = ["a1.cfg", "c3.cfg", "e5.cfg", "g7.cfg", "z9.cfg", "sub/k1.cfg"]
+    tree = {n: "hostname dev%d\nip address 11.22.33.%d 255.255.255.0\nenable secret S3cretNo%dXq\nneighbor zurnet-%d remote-as 65001\n" % (i, 40 + i, i, i) for i, n in enumerate(good)}
+    tree.update({"b2.cfg": "hostname x\n", "f6.cfg": "hostname y\n"})
+    c_text.write_tree(ind, tree)
+    opts = ["-a", "-p", "-w", "zurnet", "-n", "65001", "-i", ind]
+
+    def run(outd, extra):
+        for bad in ("b2.cfg", "f6.cfg"):
+            os.makedirs(os.path.join(outd, bad))                  # output path occupied by a directory: these two files fail
+        rc, err = c_text.run_main(opts + ["-o", outd] + extra, hashseed="random")
+        t = {}
+        for n in good:
+            q = os.path.join(outd, n)
+            t[n] = open(q).read() if os.path.isfile(q) else None
+        return hashlib.sha256(json.dumps(sorted(t.items())).encode()).hexdigest(), err, t
+
+    d0, err0, t0 = run(os.path.join(base, "out0"), [])
+    ev.append({"ev": "run", "cfg": "main-nosalt-fault", "inp": "tree", "out": d0, "where": "no salt, two failing files"})
+    info.append(("run", "no salt: %s" % json.dumps(t0)[:200]))
+    if any(v is None for v in t0.values()):
+        ev.append({"ev": "exc", "what": "good files missing from the output: %s" % [k for k, v in t0.items() if v is None]})
+        info.append(("exception", "missing outputs"))
+    # candidates for the reported salt: any alphanumeric run in a WARNING-or-above line of the log, whatever the wording
+    cands = []
+    for line in err0.splitlines():
+        if re.match(r"^(WARNING|ERROR|CRITICAL)", line) and "salt" in line.lower():
+            cands += [c for c in re.findall(r"[A-Za-z0-9]{8,}", line) if c not in cands]
+    best = None
+    for ci, c in enumerate(cands[:4]):
+        d1, _, t1 = run(os.path.join(base, "re%d" % ci), ["-s", c])
+        if best is None or d1 == d0:
+            best = (d1, c, t1)
+        if d1 == d0:
+            break
+    if best is None:
+        ev.append({"ev": "exc", "what": "no salt reported at WARNING level or above: %r" % err0[-300:]})
+        info.append(("exception", "salt not reported"))
+    else:
+        ev.append({"ev": "run", "cfg": "main-nosalt-fault", "inp": "tree", "out": best[0], "where": "rerun with reported salt %r (of %d candidates)" % (best[1], len(cands))})
+        info.append(("run", "rerun with reported salt: %s" % json.dumps(best[2])[:200]))
+    return ev, info
+
+
 def run(pid, tier):
     ck = Check(pid, tier)
     thorough = tier == "thorough"
@@ -260,6 +312,9 @@ def run(pid, tier):
     ev, info = main_runs(ck)
     traces.append(ev)
     meta.append({"hist": "command line, three hash seeds", "info": info})
+    ev, info = main_nosalt_fault(ck)
+    traces.append(ev)
+    meta.append({"hist": "command line, no salt, failing files in the middle", "info": info})
     ev, info = main_history(ck)
     traces.append(ev)
     meta.append({"hist": "main() called repeatedly in one process", "info": info})
